@@ -1,8 +1,9 @@
 import PartituraModel.Wire
 import PartituraModel.Model.Pitch
 import PartituraModel.Model.Conversions
+import PartituraModel.Model.ConversionsArr
 
-open Wire Model Gen.C12
+open Wire Model Gen.C12 Gen.C12L
 
 /-- typed token: `-` = None, `s:<percent-encoded>` = str, `i:<int>` = int, `n:<rat>` = any other number -/
 def tagged : P (String × String) := do
@@ -74,7 +75,7 @@ def handle (ts : List String) : String :=
     orErr <| (run int rest).bind fun p => (midiToSpellingG p).map fmtSpelling
   | "s2n" :: rest =>
     orErr <| (run (do let s ← str; let a ← int; let o ← int; pure (s, a, o)) rest).map fun (s, a, o) =>
-      spellingToNoteName s a o
+      spellingToNoteNameG s a o
   | "n2s" :: rest =>
     orErr <| (run str rest).bind fun n => (noteNameToSpellingG n).map fmtSpelling
   | "n2m" :: rest =>
@@ -92,7 +93,7 @@ def handle (ts : List String) : String :=
       fifthsModeToKeyNameG f (m.getD f2kDefaultMode)
   | "k2f" :: rest =>
     orErr <| (run str rest).bind fun n =>
-      (keyNameToFifthsModeG n).map fun (f, m) => fmtTuple [fmtInt f, modeName m]
+      (keyNameToFifthsModeK n).map fun (f, m) => fmtTuple [fmtInt f, modeName m]
   | "kmi" :: rest =>
     orErr <| (run pylit rest).bind fun m => (keyModeToIntG m).map fmtInt
   | "kim" :: rest =>
@@ -101,15 +102,15 @@ def handle (ts : List String) : String :=
   | "cis" :: rest => orErr <| (run int rest).bind fun i => clefIntToSign i
   | "tqt" :: rest =>
     orErr <| (run (do let u ← str; let t ← rat; pure (u, t)) rest).bind fun (u, t) =>
-      (toQuarterTempo u t).map fmtRat
+      (toQuarterTempoG u t).map fmtRat
   | "s2num" :: rest =>
-    orErr <| (run (do let ty ← str; let d ← nat; let a ← opt nat; let n ← opt nat; let dv ← rat
+    orErr <| (run (do let ty ← opt str; let d ← opt nat; let a ← opt nat; let n ← opt nat; let dv ← rat
                       pure (ty, d, a, n, dv)) rest).bind fun (ty, d, a, n, dv) =>
-      (symbolicToNumeric (ty, d, a, n) dv).map fmtRat
-  | "fsd" :: "N" :: [] => "s:" ++ formatSymbolic none
+      (symbolicToNumericG ty d a n dv).map fmtRat
+  | "fsd" :: "N" :: [] => "s:" ++ formatSymbolicG none
   | "fsd" :: rest =>
     orErr <| (run (do let ty ← opt str; let d ← opt nat; let a ← opt nat; let n ← opt nat
-                      pure (ty, d, a, n)) rest).map fun x => "s:" ++ formatSymbolic (some x)
+                      pure (ty, d, a, n)) rest).map fun x => "s:" ++ formatSymbolicG (some x)
   | "ivs" :: rest =>
     orErr <| (run (do let q ← str; let n ← nat; pure (q, n)) rest).bind fun (q, n) =>
       (intervalSemitones q n).map fmtInt
@@ -128,6 +129,12 @@ def handle (ts : List String) : String :=
   | "tick2sec" :: rest =>
     orErr <| (run (do let k ← rat; let m ← orDefault nat; let p ← orDefault nat; pure (k, m, p)) rest).bind
       fun (k, m, p) => (tickToSecG k m p).map fmtRat
+  | "sec2tickA" :: rest =>
+    orErr <| (run (do let m ← orDefault nat; let p ← orDefault nat; let ts ← list rat; pure (ts, m, p)) rest).bind
+      fun (ts, m, p) => (secToTickArr ts m p).map (fmtList fmtInt)
+  | "tick2secA" :: rest =>
+    orErr <| (run (do let m ← orDefault nat; let p ← orDefault nat; let ks ← list rat; pure (ks, m, p)) rest).bind
+      fun (ks, m, p) => (tickToSecArr ks m p).map (fmtList fmtRat)
   | "m2f" :: rest =>
     orErr <| (run (do let p ← rat; let a ← orDefault rat; pure (p, a)) rest).bind fun (p, a) =>
       (midiToFreqQ p a).map fmtRat
